@@ -24,9 +24,9 @@ TRUSTED = ["theories/KeyHash/KeyModel.v is a hand transcription of xtypes_glue/k
            "assuming the codec returns the sample it was given (C09)"]
 ASSUMPTIONS = ["a nested DynamicData carries the type its member descriptor declares",
                "key members are not optional, nested key structures are FINAL or APPENDABLE, no sequence/array of "
-               "sequence/array, no enum/union/bitmask/wstring/map key members, char8 values are ASCII",
+               "sequence/array, no enum/union/bitmask/wstring/map key members, char8 values fit one octet",
                "=> direction: outside the recorded class C11-key-id-collision and modulo an explicit MD5 coincidence",
-               "reader derivation without key hash for sample types with MUTABLE structures, FLOAT128, multi-dimensional arrays or optional members: recorded class C11-reader-derivation-codec (root cause in the XCDR codec, C09)",
+               "reader derivation without key hash for sample types with MUTABLE structures, multi-dimensional arrays or optional members: recorded class C11-reader-derivation-codec (root cause in the XCDR codec, C09)",
                "the NotAlive* derivation is exercised through deserialize_topic_type (deserialize_top_level_type "
                "followed by validation) because xtypes::deserializer is pub(crate)"]
 
@@ -35,7 +35,7 @@ TAG = {"b": "b", "y": "u8", "u8": "u8", "i8": "i8", "u16": "u16", "i16": "i16", 
        "u64": "u64", "i64": "i64", "f32": "f32", "f64": "f64", "f128": "f128", "c8": "c8"}
 RANGE = {"b": (0, 1), "u8": (0, 255), "i8": (-128, 127), "u16": (0, 65535), "i16": (-32768, 32767),
          "u32": (0, 2**32 - 1), "i32": (-2**31, 2**31 - 1), "u64": (0, 2**64 - 1), "i64": (-2**63, 2**63 - 1),
-         "f32": (0, 2**32 - 1), "f64": (0, 2**64 - 1), "f128": (-2**127, 2**127 - 1), "c8": (0, 127)}
+         "f32": (0, 2**32 - 1), "f64": (0, 2**64 - 1), "f128": (-2**127, 2**127 - 1), "c8": (0, 255)}
 COQ_PRIM = {"b": "PBool", "y": "PByte", "u8": "PU8", "i8": "PI8", "u16": "PU16", "i16": "PI16", "u32": "PU32",
             "i32": "PI32", "u64": "PU64", "i64": "PI64", "f32": "PF32", "f64": "PF64", "f128": "PF128",
             "c8": "PChar8"}
@@ -217,9 +217,7 @@ def gen_topic_type(r, ext=None):
 def codec_safe(t):
     """sample types on which the real XCDR codec returns the sample it was given (see KeyCorr.codec_ok)"""
     k = t[0]
-    if k == "p":
-        return t[1] != "f128"
-    if k == "s":
+    if k in ("p", "s"):
         return True
     if k == "q":
         return codec_safe(t[1])
@@ -228,22 +226,8 @@ def codec_safe(t):
     return t[1] != "m" and all((not m[2]) and codec_safe(m[3]) for m in t[2])
 
 
-def ascii_only(v):
-    """reader-side cases: the real codec writes a non-ASCII char8 as UTF-8 but reads one byte back (C09)"""
-    k = v[0]
-    if k == "P":
-        return ("P", v[1], 65) if v[1] == "c8" and v[2] > 127 else v
-    if k == "Q":
-        return ("Q", v[1], [65 if v[1] == "c8" and z > 127 else z for z in v[2]])
-    if k == "{":
-        return ("{", [(i, ascii_only(x)) for i, x in v[1]])
-    if k == "R":
-        return ("R", [[(i, ascii_only(x)) for i, x in d] for d in v[1]])
-    return v
-
-
 def gen_r_fields(r, t):
-    return [(i, ascii_only(x)) for i, x in gen_fields(r, t)]
+    return gen_fields(r, t)
 
 
 def gen_safe_topic_type(r):
@@ -277,8 +261,8 @@ def gen_scalar(r, tag):
     lo, hi = RANGE[tag]
     k = r.random()
     if tag == "c8" and k < 0.04:
-        # outside the ASCII fragment of the theorems: char::to_string() writes UTF-8 (model: utf8)
-        return r.choice([128, 233, 0x7FF, 0x800, 0x20AC, 0xFFFF, 0x10000, 0x1F600, 0x10FFFF])
+        # a char that does not fit one octet: the serializer writes `c as u32 as u8` (model: wrap_u8)
+        return r.choice([256, 0x141, 0x7FF, 0x800, 0x20AC, 0xFFFF, 0x10000, 0x1F600, 0x10FFFF])
     if k < 0.25:
         return r.choice([lo, hi, 0, 1, min(hi, 2), max(lo, -1)])
     if k < 0.35 and tag in SPECIAL:
@@ -545,7 +529,8 @@ def corpus():
          [(0, ("P", "u8", 2)), (1, ("{", [(0, ("P", "u8", 7))]))]),
         ("h", t_col2, [(0, ("P", "u16", 1)), (1, ("{", [(0, ("P", "u8", 7))]))],
          [(0, ("P", "u16", 2)), (1, ("{", [(0, ("P", "u8", 7))]))]),
-        # C11-reader-derivation-codec: MUTABLE + 8-byte member, FLOAT128, two-dimensional array, optional member
+        # C11-reader-derivation-codec: MUTABLE + 8-byte member, two-dimensional array, optional member, nested MUTABLE
+        # (FLOAT128 in XCDR1 derives the right handle since 0b5427b: regression case)
         ("r", ("S", "m", [(5, True, False, ("p", "i64")), (7, True, False, ("a", ("p", "u8"), [3])),
                           (9, False, False, ("p", "u8"))]),
          [(5, ("P", "i64", -2)), (7, ("Q", "u8", [1, 2, 3])), (9, ("P", "u8", 1))]),
@@ -555,6 +540,20 @@ def corpus():
          [(0, ("Q", "u16", [2, 203, 224, 23195, 113, 238]))]),
         ("r", ("S", "f", [(0, False, True, ("S", "f", [(2, True, False, ("p", "c8"))])), (1, True, False, ("p", "u32"))]),
          [(0, ("{", [(2, ("P", "c8", 10))])), (1, ("P", "u32", 2397364309))]),
+        # before f05259a this sample made the XCDR2 decoder ask for 81 GB and abort; now a decode error
+        ("r", ("S", "f", [(0, False, False, ("p", "c8")),
+                          (1, False, False, ("S", "m", [(3, True, False, ("p", "u32")), (4, False, False, ("p", "b")),
+                                                        (5, True, False, ("s", 1)), (6, True, False, ("p", "c8"))])),
+                          (2, True, False, ("q", ("S", "a", [(7, False, False, ("a", ("p", "i16"), [3, 2])),
+                                                             (8, False, False, ("s", 3)), (9, False, False, ("p", "i8"))]), 2))]),
+         [(0, ("P", "c8", 0)),
+          (1, ("{", [(3, ("P", "u32", 1689009301)), (4, ("P", "b", 1)), (5, ("x", [0x61])), (6, ("P", "c8", 0))])),
+          (2, ("R", [[(7, ("Q", "i16", [-15694, 136, 6986, 157, -1468, -15181])), (8, ("x", [0x44])), (9, ("P", "i8", -13))],
+                     [(7, ("Q", "i16", [27206, -28524, -32768, -13116, 32767, -24202])), (8, ("x", [0x7e, 0x79, 0x20])),
+                      (9, ("P", "i8", 35))]]))]),
+        # a char8 that does not fit one octet, in a key and beside a key
+        ("r", ("S", "f", [(0, True, False, ("q", ("p", "c8"), 0)), (1, False, False, ("p", "c8")), (2, True, False, ("p", "i64"))]),
+         [(0, ("Q", "c8", [233, 8364, 65])), (1, ("P", "c8", 2048)), (2, ("P", "i64", 2))]),
     ]
 
 
